@@ -55,3 +55,10 @@ package aio
 
 //@ func (AIO).Flush
 //@ iface
+
+//@ func (AIO).Signal
+//@ iface
+//@ ensures result != nil
+
+//@ func (AIO).Shutdown
+//@ iface
